@@ -13,6 +13,7 @@ from pathlib import Path
 from typing import DefaultDict, Iterable
 
 from . import _dsdl_definition, _error, _serializable
+from . import _verif_trace
 from ._data_type_builder import DataTypeCollisionError
 from ._dsdl import ReadableDSDLFile, PrintOutputHandler, SortedFileList
 from ._dsdl import file_sort as dsdl_file_sort
@@ -338,6 +339,12 @@ def _complete_read_function(
     # directories may contain issues and mistakes that are outside of the control of the user (e.g.,
     # they could be managed by a third party) -- the user shouldn't be affected by mistakes committed
     # by the third party.
+    if _verif_trace.ENABLED:
+        _verif_trace.emit(
+            "check_scope",
+            port=[str(t.source_file_path) for t in definitions.direct],
+            version=[str(t.source_file_path) for t in definitions.transitive + definitions.direct],
+        )
     _ensure_no_fixed_port_id_collisions(definitions.direct)
     _ensure_minor_version_compatibility(definitions.transitive + definitions.direct)
 
@@ -429,6 +436,12 @@ def _construct_dsdl_definitions_from_namespaces(
                 p,
             )
 
+    if _verif_trace.ENABLED:
+        _verif_trace.emit(
+            "list_dir",
+            roots=[str(r) for r in root_namespace_paths],
+            order=[str(p[0]) for p in source_file_paths],
+        )
     return dsdl_file_sort([_dsdl_definition.DSDLDefinition(*p) for p in source_file_paths])
 
 
